@@ -10,6 +10,13 @@ from typing import Any, Callable
 
 import z3
 
+
+def _zsum(ts):
+    """z3.Sum, except that a one-element sum is the element itself: z3 prints (+ x) for it, which cvc5 1.0 rejects."""
+    ts = list(ts)
+    return ts[0] if len(ts) == 1 else z3.Sum(ts)
+
+
 from . import smt
 from .index import Index
 from .interp import Env, Interp
@@ -259,12 +266,12 @@ def count_axioms(st: State, quantified: bool = False, max_conds: int = 48, meta:
                         out.append(z3.Implies(z3.And(t_ >= 0, t_ < hi, z3.substitute(c, (g0, t_))), r.term >= 1))
             continue
         ns = [fresh_int("n_atom") for _ in atoms]
-        out.append(z3.Sum(ns) == z3.If(hi > 0, hi, 0) if ns else (z3.If(hi > 0, hi, 0) == 0))
+        out.append(_zsum(ns) == z3.If(hi > 0, hi, 0) if ns else (z3.If(hi > 0, hi, 0) == 0))
         for n in ns:
             out.append(n >= 0)
         for i, r in enumerate(recs):
             terms = [n for n, a in zip(ns, atoms) if a[i]]
-            out.append(r.term == (z3.Sum(terms) if terms else z3.IntVal(0)))
+            out.append(r.term == (_zsum(terms) if terms else z3.IntVal(0)))
 
         def atom_at(a, idx, _conds=tuple(conds), _g0=g0):  # (bound now: the closure is called after the loop has moved on)
             return z3.And(*[(z3.substitute(c, (_g0, idx)) if v else z3.Not(z3.substitute(c, (_g0, idx)))) for c, v in zip(_conds, a)])
@@ -291,7 +298,7 @@ def _small_range_facts(meta, bound: int = 5) -> list:
     such a range (complete for it): any model of the restricted query is a model of the full one."""
     out = [hi <= bound for hi in {h.get_id(): h for _n, _a, h in meta}.values()]
     for n, atom, hi in meta:
-        out.append(n == z3.Sum([z3.If(z3.And(j < hi, atom(z3.IntVal(j))), 1, 0) for j in range(bound)] + [z3.IntVal(0)]))
+        out.append(n == _zsum([z3.If(z3.And(j < hi, atom(z3.IntVal(j))), 1, 0) for j in range(bound)] + [z3.IntVal(0)]))
     return out
 
 
